@@ -52,7 +52,8 @@ EXPLANATION = (
     "stale responses flushed before sending; R5 configure/inquire: specifier mismatch and non-zero error code raise "
     "LssError before the normal exit, silence raises LssError; R6 ListMessageNeedResponse equals the set of confirmed "
     "services; fast scan: probe order and constants (bit check 128 first, bits 31..0, LSSNext = (sub + 1) mod 4 "
-    "evaluated for sub = 0..3, bit set exactly when unanswered, success returns the four accumulated words); R7 structural assumptions shared by all properties: no class-level mutable object is mutated in place by instances, no method re-runs the constructor, logging statements cannot raise."
+    "evaluated for sub = 0..3, bit set exactly when unanswered, success returns the four accumulated words); R7 structural assumptions shared by all properties: no class-level mutable object is mutated in place by instances, no method re-runs the constructor, logging statements cannot raise (typed eager formatting, divisions), no mutable default argument is kept or mutated, no new truth-value test of a None-able number."
+    ' R4 also: every LSS response specifier of CiA 305 passes any early exit of on_message_received.'
 )
 ASSUMPTIONS = [
     "not decided: the 128-bit search result against a slave model, timing (sleep) requirements of slaves",
